@@ -199,7 +199,13 @@ class Leaves:
     def classify(self, p: Poly, text: str) -> Any:
         alg = self.alg
         if TA.is_const(p):
-            return Aff(0, 0, F(p.get((), 0)))
+            c = F(p.get((), 0))
+            # a folded constant that is a multiple of pi/2 to the last bit (math.pi, 2 * numpy.pi, numpy.pi / 2) is that multiple of pi
+            v = float(c)
+            for k in range(-8, 9):
+                if k and v == k * (math.pi / 2):
+                    return Aff(0, F(k, 2), 0)
+            return Aff(0, 0, c)
         # cos(phi) = xref / nn ,  sin(phi) = yref / nn
         for kind, ref in (("c", self.xref), ("s", self.yref)):
             for sg in (1, -1):
@@ -632,7 +638,7 @@ def analyse_circle(fn: ast.FunctionDef, fold: Optional[Callable[[ast.AST], Any]]
     envs: List[Tuple[ast.stmt, Dict[str, Any]]] = []  # environment before each statement of the prefix
     for i, st in enumerate(body):
         envs.append((st, dict(env)))
-        if any(TA._angle_call(c) for c in ast.walk(st)):
+        if any(TA._angle_call(c) for c in ast.walk(st)) and not TA.is_guard(st):
             start = i
             break
         if isinstance(st, ast.Expr):
